@@ -531,7 +531,18 @@ func (m *machine) floatBuiltin(name string, a []Value) Value {
 	case "mix":
 		// x*(1-a)+y*a
 		t := arg(2)
-		return m.fres(x*(1-t)+arg(1)*t, true)
+		r := x*(1-t) + arg(1)*t
+		if math.Abs(r) < 1e-3*(math.Abs(x*(1-t))+math.Abs(arg(1)*t)) {
+			m.ev.Imprecise++ // the two products cancel (|t| large): the rounding error is of their order
+		}
+		// WGSL allows either x*(1-a)+y*a or x+(y-x)*a; evaluated in binary32 the second absorbs y
+		// when |x| >> |y| (mix(1e30, 2.6, 1.0) is 0 that way)
+		x32, y32, t32 := float32(x), float32(arg(1)), float32(t)
+		alt := float64(x32 + (y32-x32)*t32)
+		if d := math.Abs(alt - r); d > 1e-4*math.Abs(r) && d > 1e-30 {
+			m.ev.Imprecise++
+		}
+		return m.fres(r, true)
 	case "smoothstep":
 		lo, hi := arg(0), arg(1)
 		if lo >= hi {
